@@ -52,26 +52,47 @@
 (*      (QueryType).  Every semantic case carries one of the declarations  *)
 (*      (DeclNames: single, main first / last / in the middle).            *)
 (*                                                                         *)
+(* (vi) The pipe part of a SeqQL query (parser/seqql_pipes.go): after the   *)
+(*      filter expression come  | fields [except] name [,] name ...  The   *)
+(*      tail is a sequence of lexer tokens (bar, comma, the keywords, bare *)
+(*      names, - and *, another symbol, and QUOTED tokens of the three     *)
+(*      quote kinds whose content is a name, empty, or spells a keyword or *)
+(*      a separator) written with and without spaces between them.  The    *)
+(*      reference (RefPipes, declarative: cut at the unquoted bars, every  *)
+(*      segment is one fields pipe, at most one of them; a name is a       *)
+(*      maximal run of glued name tokens; a quoted token is never a        *)
+(*      keyword or a separator) decides which tails are queries and which  *)
+(*      field list they carry.  parsePipes / parsePipeFields /             *)
+(*      parseFieldList / parseCompositeToken are transcribed over the      *)
+(*      token cursor (SeqQLPipes) together with the tail of ParseSeqQL     *)
+(*      ("BUG: lexer is not end" = outcome "panic"); TLC checks            *)
+(*      "algorithm = reference" for every tail of the scope                *)
+(*      (PipesEqualReference): in particular the panic is unreachable.     *)
+(*      Mode "pipe" emits every tail behind each kind of filter expression *)
+(*      with the required outcome, field list and truth table.             *)
+(*                                                                         *)
 (* Modes (one cfg each): "tree" exhaustive source trees x styles,          *)
 (* "randtree" seeded random trees (-simulate), "gwalk" every sequence over *)
 (* the grammar lexemes, "walk" hostile sequences (exhaustive, or random    *)
 (* walks under -simulate), "deep" nesting classes, "phrase" every rune     *)
 (* string over the palette (exhaustive / random walks) as the value of a   *)
-(* text and of a keyword field in each context.  Every state is emitted    *)
-(* as a CASE; harness/cmd/parserdrv replays them into parser.ParseSeqQL /  *)
-(* ParseQuery / ParseAggregationFilter and GrpcV1.Search.                  *)
+(* text and of a keyword field in each context, "pipe" every token         *)
+(* sequence over the pipe alphabet as the tail of a query.  Every state is *)
+(* emitted as a CASE; harness/cmd/parserdrv replays them into              *)
+(* parser.ParseSeqQL / ParseQuery / ParseAggregationFilter and             *)
+(* GrpcV1.Search.                                                          *)
 (***************************************************************************)
 EXTENDS Integers, Sequences, FiniteSets, TLC, Json
 
-CONSTANTS Mode,         \* "tree" | "randtree" | "gwalk" | "walk" | "deep" | "phrase"
+CONSTANTS Mode,         \* "tree" | "randtree" | "gwalk" | "walk" | "deep" | "phrase" | "pipe"
           LeafSet,      \* "bool" | "rich" | "rich3"
           Depth,        \* depth bound of source trees
           ParenStyles,  \* subset of {"min", "full", "red"}
-          SpellNames,   \* subset of {"s1", "s2", "s3", "s4"}
+          SpellNames,   \* subset of {"s1", "s2", "s3", "s4"} (pipe: the spacing / case styles of the tail)
           EmitTrees,    \* TRUE: emit one sem case per (tree, paren, spell)
-          Alpha,        \* walk: "A" | "B" | "S" | "U";  phrase: "P" | "Q";  gwalk: ignored
-          Contexts,     \* phrase: subset of CtxNames
-          MaxLen,       \* walk/gwalk: length bound of the walked prefix
+          Alpha,        \* walk: "A" | "B" | "S" | "U" | "P";  phrase: "P" | "Q";  gwalk, pipe: ignored
+          Contexts,     \* phrase: subset of CtxNames;  pipe: subset of QuoteRots
+          MaxLen,       \* walk/gwalk/pipe: length bound of the walked prefix (behind the start, if the walk has one)
           TailLen,      \* walk: every frontier prefix stands for all its extensions by <= TailLen lexemes
           DeepReps      \* deep: repetition counts (nesting depth classes)
 
@@ -88,6 +109,8 @@ WordsLeaf(f, ws) == [op |-> "words", f |-> f, ws |-> ws]         \* f:"w1 w2 ...
 Not(a)    == [op |-> "not", l |-> a]
 Bin(o, a, b) == [op |-> o, l |-> a, r |-> b]
 
+\* the query  *  (every document): parseSeqQLSubexpr returns Literal{Field: _all_, Terms: [symbol *]} for it
+StarLeaf == Lit("_all_", "<W>")
 BoolLeaves == {Lit("a", "x"), Lit("b", "x"), Lit("c", "x")}
 RichLeaves == {Lit("a", "x"), Lit("p", "x"), Lit("t", "y"),
                InLeaf("a", <<"x", "y">>), WordsLeaf("t", <<"x", "y">>)}
@@ -461,7 +484,7 @@ SpellValues(els, sp, sep) == IF Len(els) = 1 THEN SpellValue(els[1].rs, sp)
 RECURSIVE Join(_, _)
 Join(ws, sep) == IF Len(ws) = 1 THEN <<ws[1]>> ELSE <<ws[1]>> \o sep \o Join(Tail(ws), sep)
 SpellLeaf(x, sp) ==
-  CASE x.op = "lit"   -> <<x.f, ":", x.w>>
+  CASE x.op = "lit"   -> (IF x = StarLeaf THEN <<"*">> ELSE <<x.f, ":", x.w>>)
     [] x.op = "in"    -> <<x.f, ":", (IF sp.up THEN "IN" ELSE "in"), "(">>
                           \o Join(x.ws, IF sp.tight THEN <<",">> ELSE <<",", "<SP>">>) \o <<")">>
     [] x.op = "words" -> <<x.f, ":", sp.quote>> \o Join(x.ws, <<"<SP>">>) \o <<sp.quote>>
@@ -513,6 +536,188 @@ SemCase(s, sp, label, x, d) ==
    ast |-> Norm(SeqQLTree(s).ast), allowed |-> <<"ok">>]
 
 \* ======================================================================
+\* (vi) the pipe part:  filter | fields [except] name [,] name ...
+\* ======================================================================
+\* A token as parser/seqql.go:lexer.Next hands it to the parsers: t = lexer.Token, lo = its lower case (keywords are
+\* compared with strings.EqualFold), q = lexer.TokenQuoted, sp = lexer.SpaceSkipped, c = its class: "word" (a maximal run
+\* of token runes: letters, digits, _ and .), "bar", "comma", "join" (- and the wildcard: single symbols that
+\* parseCompositeToken joins into a name), "sym" (any other single symbol), "quoted".
+\* The wildcard travels as U+E000 and comes back as * in a field name (parseCompositeTokenReplaceWildcards): t = "*".
+Tk(t, lo, q, sp, c) == [t |-> t, lo |-> lo, q |-> q, sp |-> sp, c |-> c]
+
+\* the token alphabet of the tail.  Q.. = a quoted token with that content (Q = the quoted EMPTY token); the quote kind
+\* is chosen by the spelling (QuoteAt)
+PTokNames == <<"|", "fields", "except", ",", "a", "b", "-", "*", ":", "Qc", "Q", "Q|", "Q,", "Qfields", "Qexcept">>
+PTokIdx(n) == CHOOSE i \in DOMAIN PTokNames : PTokNames[i] = n
+\* up: the style writes the two keywords in capitals (a name written FIELDS stays FIELDS: names are not folded)
+PTok(n, up) ==
+  CASE n = "|"       -> [t |-> "|", lo |-> "|", c |-> "bar"]
+    [] n = ","       -> [t |-> ",", lo |-> ",", c |-> "comma"]
+    [] n = "fields"  -> [t |-> (IF up THEN "FIELDS" ELSE "fields"), lo |-> "fields", c |-> "word"]
+    [] n = "except"  -> [t |-> (IF up THEN "EXCEPT" ELSE "except"), lo |-> "except", c |-> "word"]
+    [] n \in {"a", "b"} -> [t |-> n, lo |-> n, c |-> "word"]
+    [] n \in {"-", "*"} -> [t |-> n, lo |-> n, c |-> "join"]
+    [] n = ":"       -> [t |-> ":", lo |-> ":", c |-> "sym"]
+    [] n = "Qc"      -> [t |-> "c", lo |-> "c", c |-> "quoted"]
+    [] n = "Q"       -> [t |-> "", lo |-> "", c |-> "quoted"]
+    [] n = "Q|"      -> [t |-> "|", lo |-> "|", c |-> "quoted"]
+    [] n = "Q,"      -> [t |-> ",", lo |-> ",", c |-> "quoted"]
+    [] n = "Qfields" -> [t |-> "fields", lo |-> "fields", c |-> "quoted"]
+    [] n = "Qexcept" -> [t |-> "except", lo |-> "except", c |-> "quoted"]
+
+\* lexer.Next over the written tail: names[i] is written after a space iff spc[i].  Two words with nothing between
+\* them are one token (the lexer takes the maximal run of token runes); every other piece is a token of its own.
+RECURSIVE LexFrom(_, _, _, _, _)
+LexFrom(names, spc, up, i, acc) ==
+  IF i > Len(names) THEN acc
+  ELSE LET e == PTok(names[i], up)
+           n == Len(acc)
+           merge == n > 0 /\ ~spc[i] /\ e.c = "word" /\ acc[n].c = "word" IN
+       IF merge THEN LexFrom(names, spc, up, i + 1, [acc EXCEPT ![n] = Tk(acc[n].t \o e.t, acc[n].lo \o e.lo, FALSE, acc[n].sp, "word")])
+       ELSE LexFrom(names, spc, up, i + 1, Append(acc, Tk(e.t, e.lo, e.c = "quoted", spc[i], e.c)))
+Lex(names, spc, up) == LexFrom(names, spc, up, 1, <<>>)
+
+\* ---- reference (declarative).  A quoted token is never a keyword and never a separator; only its content counts,
+\* as a name or a part of one.
+IsBar(tk)     == ~tk.q /\ tk.t = "|"
+IsComma(tk)   == ~tk.q /\ tk.t = ","
+IsKwd(tk, k)  == ~tk.q /\ tk.lo = k
+NamePart(tk)  == tk.q \/ tk.c \in {"word", "join"}     \* can be (a part of) a field name
+RErr == [out |-> "err", pipes |-> <<>>]
+RECURSIVE ConcatT(_, _, _)
+ConcatT(b, i, j) == IF i > j THEN "" ELSE b[i].t \o ConcatT(b, i + 1, j)
+\* b: what stands between  fields [except]  and the next bar / the end of the query.  Commas are optional separators:
+\* each one stands between two names.  A name is a maximal run of name parts written without a space between them.
+RefFieldList(b) ==
+  LET C == {i \in DOMAIN b : IsComma(b[i])}
+      F == (DOMAIN b) \ C
+      glued(i) == i \in F /\ (i - 1) \in F /\ ~b[i].sp
+      runs == {ab \in F \X F : /\ ab[1] <= ab[2] /\ ~glued(ab[1]) /\ ~glued(ab[2] + 1)
+                               /\ \A k \in (ab[1] + 1)..ab[2] : glued(k)}
+      iv == InOrder(runs) IN
+  IF /\ b # <<>>
+     /\ \A i \in F : NamePart(b[i])
+     /\ \A i \in C : (i - 1) \in F /\ (i + 1) \in F
+  THEN [ok |-> TRUE, fields |-> [n \in DOMAIN iv |-> ConcatT(b, iv[n][1], iv[n][2])]]
+  ELSE [ok |-> FALSE, fields |-> <<>>]
+\* s: what stands between two bars (or the last bar and the end): the keyword fields, an optional keyword except, a list
+RefPipe(s) ==
+  IF s = <<>> \/ ~IsKwd(s[1], "fields") THEN [ok |-> FALSE, pipe |-> <<>>]                 \* there is no other pipe
+  ELSE LET ex == Len(s) >= 2 /\ IsKwd(s[2], "except")
+           l == RefFieldList(SubSeq(s, (IF ex THEN 3 ELSE 2), Len(s))) IN
+       IF l.ok THEN [ok |-> TRUE, pipe |-> <<[fields |-> l.fields, except |-> ex]>>] ELSE [ok |-> FALSE, pipe |-> <<>>]
+\* ts: the tokens behind a complete filter expression.  Nothing, or: a bar, and every segment cut off by the bars is a
+\* fields pipe, and there is at most one fields pipe
+RefPipes(ts) ==
+  IF ts = <<>> THEN [out |-> "ok", pipes |-> <<>>]
+  ELSE LET B == {i \in DOMAIN ts : IsBar(ts[i])} IN
+       IF 1 \notin B THEN RErr                     \* the filter expression goes on: "expected 'and', 'or', 'not'"
+       ELSE LET G == InOrder(Segs(ts, B) \ {<<1, 0>>})
+                P == [n \in DOMAIN G |-> RefPipe(SubSeq(ts, G[n][1], G[n][2]))] IN
+            IF (\A n \in DOMAIN P : P[n].ok) /\ Len(P) <= 1 THEN [out |-> "ok", pipes |-> P[1].pipe] ELSE RErr
+
+\* ---- transcription: the cursor i stands for the lexer (lex.Token = ts[i], the end of the query behind the last token)
+PEnd(ts, i) == i > Len(ts)                                                      \* lexer.IsEnd
+PKw(ts, i, k) == IF i > Len(ts) THEN k = "" ELSE ~ts[i].q /\ ts[i].lo = k       \* lexer.IsKeyword: TokenQuoted -> false
+\* seqql_filter.go:isCompositeToken
+PComp(ts, i) == /\ ~PKw(ts, i, "")
+                /\ (ts[i].t = "" \/ ts[i].q \/ ts[i].c \in {"word", "join"})
+PFail == [ok |-> FALSE, pos |-> 0]
+\* seqql_filter.go:parseCompositeToken (first token, then every following one that no space separates)
+RECURSIVE PJoin(_, _, _)
+PJoin(ts, j, v) == IF j <= Len(ts) /\ ~ts[j].sp /\ PComp(ts, j) THEN PJoin(ts, j + 1, v \o ts[j].t)
+                   ELSE [ok |-> TRUE, v |-> v, pos |-> j]
+PCompositeTok(ts, i) == IF PKw(ts, i, "") THEN PFail                            \* "unexpected end of query"
+                        ELSE IF ~PComp(ts, i) THEN PFail                        \* "unexpected symbol"
+                        ELSE PJoin(ts, i + 1, ts[i].t)
+\* seqql_pipes.go:parseFieldList
+RECURSIVE PFieldLoop(_, _, _, _)
+PFieldLoop(ts, i, fields, trailing) ==
+  IF PKw(ts, i, "|") \/ PKw(ts, i, "") THEN                                     \* for !lex.IsKeywords("|", "")
+       IF trailing THEN PFail                                                   \* "trailing comma not allowed"
+       ELSE IF fields = <<>> THEN PFail                                         \* "empty list"
+       ELSE [ok |-> TRUE, v |-> fields, pos |-> i]
+  ELSE LET f == PCompositeTok(ts, i) IN
+       IF ~f.ok THEN PFail
+       ELSE IF PKw(ts, f.pos, ",") THEN PFieldLoop(ts, f.pos + 1, Append(fields, f.v), TRUE)
+       ELSE PFieldLoop(ts, f.pos, Append(fields, f.v), FALSE)
+\* seqql_pipes.go:parsePipeFields
+PPipeFields(ts, i) ==
+  IF ~PKw(ts, i, "fields") THEN PFail
+  ELSE LET ex == PKw(ts, i + 1, "except")
+           l == PFieldLoop(ts, (IF ex THEN i + 2 ELSE i + 1), <<>>, FALSE) IN
+       IF ~l.ok THEN PFail ELSE [ok |-> TRUE, v |-> [fields |-> l.v, except |-> ex], pos |-> l.pos]
+\* seqql_pipes.go:parsePipes (nf: the counter of fields pipes)
+RECURSIVE PPipesLoop(_, _, _, _)
+PPipesLoop(ts, i, pipes, nf) ==
+  IF PEnd(ts, i) THEN [ok |-> TRUE, v |-> pipes, pos |-> i]                      \* for !lex.IsEnd()
+  ELSE IF ~PKw(ts, i, "|") THEN PFail                                           \* "expect pipe separator '|'"
+  ELSE IF PKw(ts, i + 1, "fields") THEN
+         LET p == PPipeFields(ts, i + 1) IN
+         IF ~p.ok THEN PFail
+         ELSE IF nf + 1 > 1 THEN PFail                                          \* "multiple field filters is not allowed"
+         ELSE PPipesLoop(ts, p.pos, Append(pipes, p.v), nf + 1)
+  ELSE PFail                                                                    \* "unknown pipe"
+\* seqql.go:ParseSeqQL behind parseSeqQLFilter, which returns at the end of the query and in front of a bar and fails on
+\* anything else; "panic" = panic("BUG: lexer is not end")
+SeqQLPipes(ts) ==
+  IF ~(PEnd(ts, 1) \/ PKw(ts, 1, "|")) THEN RErr
+  ELSE LET r == IF PKw(ts, 1, "|") THEN PPipesLoop(ts, 1, <<>>, 0) ELSE [ok |-> TRUE, v |-> <<>>, pos |-> 1] IN
+       IF ~r.ok THEN RErr
+       ELSE IF ~PEnd(ts, r.pos) THEN [out |-> "panic", pipes |-> <<>>]
+       ELSE [out |-> "ok", pipes |-> r.v]
+
+\* ---- how a tail is written.  Spacing: s1 a space in front of every token, s2 none, s3 / s4 in front of every second
+\* one; a tail that does not begin with a bar is set off from the filter expression by a space (otherwise its first
+\* token would be read into the value of the last filter)
+PSpacing(names, sn) ==
+  [i \in DOMAIN names |-> IF i = 1 /\ names[1] # "|" THEN TRUE
+                          ELSE CASE sn = "s1" -> TRUE [] sn = "s2" -> FALSE [] sn = "s3" -> i % 2 = 1 [] sn = "s4" -> i % 2 = 0]
+\* the quote kind rotates with the position; QuoteRots = where the rotation starts ("qrot": with the tail itself)
+QuoteKinds == <<"<DQ>", "<SQ>", "<BQ>">>
+QuoteRots == {"q0", "q1", "q2", "qrot"}
+RECURSIVE SumPIdx(_)
+SumPIdx(names) == IF names = <<>> THEN 0 ELSE PTokIdx(names[1]) + SumPIdx(Tail(names))
+RotOff(r, names, sn) == CASE r = "q0" -> 0 [] r = "q1" -> 1 [] r = "q2" -> 2 [] r = "qrot" -> SumPIdx(names) + SpellIdx(sn)
+QuoteAt(i, off) == QuoteKinds[((i + off) % 3) + 1]
+RECURSIVE PTailPieces(_, _, _, _, _)
+PTailPieces(names, spc, up, off, i) ==
+  IF i > Len(names) THEN <<>>
+  ELSE LET e == PTok(names[i], up)
+           body == IF e.c = "quoted" THEN <<QuoteAt(i, off)>> \o (IF e.t = "" THEN <<>> ELSE <<e.t>>) \o <<QuoteAt(i, off)>>
+                   ELSE <<e.t>> IN
+       (IF spc[i] THEN <<"<SP>">> ELSE <<>>) \o body \o PTailPieces(names, spc, up, off, i + 1)
+
+\* the filter expressions a tail is put behind: the star, a keyword filter, a negation, an or of an and-not, in(...),
+\* a quoted phrase on a text field, a parenthesised and, a value ending in a wildcard
+PipeFilters == << [x |-> StarLeaf, ps |-> "min"],
+                  [x |-> Lit("a", "x"), ps |-> "min"],
+                  [x |-> Not(Lit("a", "x")), ps |-> "min"],
+                  [x |-> Bin("or", Lit("a", "x"), Bin("and", Lit("b", "x"), Not(Lit("c", "x")))), ps |-> "min"],
+                  [x |-> InLeaf("a", <<"x", "y">>), ps |-> "min"],
+                  [x |-> WordsLeaf("t", <<"x", "y">>), ps |-> "min"],
+                  [x |-> Bin("and", Lit("a", "x"), Lit("p", "x")), ps |-> "full"],
+                  [x |-> KwLeaf("a", PhraseOf(<<"x", "*">>)), ps |-> "min"] >>
+\* the case: the query  filter tail  must have the outcome of the reference; if it is a query, the pipes of the
+\* reference and the truth table of the filter expression.  The filter, the declaration and (qrot) the quote kinds
+\* rotate with the tail and the style
+PipeCase(names, sn, r) ==
+  LET sp == SpellStyle(sn)
+      spc == PSpacing(names, sn)
+      ref == RefPipes(Lex(names, spc, sp.up))
+      k == SumPIdx(names) + SpellIdx(sn) + Len(names)
+      F == PipeFilters[(k % Len(PipeFilters)) + 1]
+      s == Render(F.x, F.ps)
+      atoms == SetToSeq(AtomsOfSeq(s)) IN
+  [kind |-> "pipe", label |-> sn, toks |-> names,
+   q |-> SpellSeq(s, sp) \o PTailPieces(names, spc, sp.up, RotOff(r, names, sn), 1),
+   nilmap |-> NilMappingToo(s), decl |-> DeclOf(DeclAt(k)), atoms |-> atoms, tt |-> TruthTable(F.x, atoms),
+   exp |-> ref.out, pipes |-> ref.pipes, allowed |-> <<ref.out>>]
+\* the walk starts behind each of these (MaxLen counts the tokens behind the longest start the tail begins with)
+PStartLen(p) == IF Len(p) >= 3 /\ SubSeq(p, 1, 3) = <<"|", "fields", "except">> THEN 3
+                ELSE IF Len(p) >= 2 /\ SubSeq(p, 1, 2) = <<"|", "fields">> THEN 2 ELSE 0
+
+\* ======================================================================
 \* (iii) totality walk
 \* ======================================================================
 AlphaA == <<"f", ":", "x", "and", "or", "not", "(", ")", "*", "<DQ>", "<SQ>", "<BQ>", "<BS>", "#", "<NL>",
@@ -524,9 +729,16 @@ AlphaG == <<"A", "B", "and", "or", "not", "(", ")">>                 \* gwalk: g
 \* private wildcard rune next to quotes, escapes, wildcards and in(...)
 AlphaU == <<"f", ":", "x", "and", "(", ")", "in", ",", "*", "<DQ>", "<BS>", "<SP>", "<U+00A0>", "<U+2014>", "<U+1F600>",
             "<U+0436>", "<BAD>", "<PUA>">>
+\* hostile walk inside a field list: the walk starts behind  f:x|fields  and goes on with the bar, the keywords, commas,
+\* names, the three quote characters (a pair of them makes a quoted token: empty, a name, a keyword, a separator), the
+\* backslash, wildcard, comment and an invalid byte
+AlphaP == <<"|", "fields", "except", ",", "x", "f", "<SP>", "<DQ>", "<SQ>", "<BQ>", "<BS>", "*", "-", "#", "<NL>", ":", "(", "<BAD>">>
 Alphabet == IF Mode = "gwalk" THEN AlphaG
             ELSE IF Mode = "phrase" THEN (IF Alpha = "Q" THEN ClassNames ELSE PaletteNames)
-            ELSE CASE Alpha = "A" -> AlphaA [] Alpha = "B" -> AlphaB [] Alpha = "S" -> AlphaS [] Alpha = "U" -> AlphaU
+            ELSE IF Mode = "pipe" THEN PTokNames
+            ELSE CASE Alpha = "A" -> AlphaA [] Alpha = "B" -> AlphaB [] Alpha = "S" -> AlphaS [] Alpha = "U" -> AlphaU [] Alpha = "P" -> AlphaP
+\* where a walk starts (MaxLen bounds what is appended)
+WalkStart == IF Mode = "walk" /\ Alpha = "P" THEN <<"f", ":", "x", "|", "fields", "<SP>">> ELSE <<>>
 \* how field f is mapped; "multi" = main type text + keyword sub-type (declared main first), "unmapped" = non-nil mapping
 \* without f, "nil" = nil mapping
 \* "multi2" = the same two types declared keyword first (main type not the first of the list)
@@ -535,7 +747,7 @@ MapTypes == <<"keyword", "text", "path", "exists", "object", "tags", "nested", "
 AllowedOutcomes == <<"ok", "err">>
 
 \* the case stands for the strings  p \o s,  s over ext,  0 <= Len(s) <= k  (k > 0 only on the frontier)
-TotCase(p) == LET k == IF Mode = "walk" /\ Len(p) = MaxLen THEN TailLen ELSE 0 IN
+TotCase(p) == LET k == IF Mode = "walk" /\ Len(p) = MaxLen + Len(WalkStart) THEN TailLen ELSE 0 IN
               [kind |-> "tot", pre |-> p, ext |-> (IF k > 0 THEN Alphabet ELSE <<>>), k |-> k,
                maps |-> MapTypes, allowed |-> AllowedOutcomes]
 
@@ -592,7 +804,7 @@ RandTree(n) ==
          [] o = "not" -> Not(RandTree(n - 1))
          [] OTHER -> Bin(o, RandTree(n - 1), RandTree(n - 1))
 
-Init == /\ sty = NoSty /\ grown = FALSE /\ pre = <<>> /\ rep = 0
+Init == /\ sty = NoSty /\ grown = FALSE /\ pre = WalkStart /\ rep = 0
         /\ IF Mode = "tree" THEN tr \in T(IF Depth > 0 THEN Depth - 1 ELSE 0) ELSE tr = NoTree
 
 Grow == /\ Mode = "tree" /\ ~grown /\ sty = NoSty /\ Depth > 0
@@ -609,7 +821,8 @@ RandStep(z) == /\ Mode = "randtree"
                /\ tr' = RandTree(Depth)
                /\ sty' = [paren |-> Pick(ParenStyles), spell |-> Pick(SpellNames)]
                /\ UNCHANGED <<grown, pre, rep>>
-Walk == /\ Mode \in {"walk", "gwalk", "phrase"} /\ Len(pre) < MaxLen
+Walk == /\ Mode \in {"walk", "gwalk", "phrase", "pipe"}
+        /\ Len(pre) - (IF Mode = "pipe" THEN PStartLen(pre) ELSE Len(WalkStart)) < MaxLen
         /\ \E i \in DOMAIN Alphabet : pre' = Append(pre, Alphabet[i])
         /\ UNCHANGED <<tr, sty, grown, rep>>
 Deep == /\ Mode = "deep" /\ rep = 0
@@ -674,6 +887,12 @@ PhraseContextsKeepMeaning ==
                        /\ SameMeaning(Norm(e.ast), x, AtomsOf(x))
                        /\ TopNotOnly(Norm(e.ast))
 
+\* (vi) every tail in every spacing: the token-cursor parsers of the pipe part end in the outcome of the reference
+\* grammar with its field list - in particular never in the panic of ParseSeqQL
+PipesEqualReference ==
+  Mode = "pipe" => \A sn \in SpellNames : LET ts == Lex(pre, PSpacing(pre, sn), SpellStyle(sn).up) IN
+                                            SeqQLPipes(ts) = RefPipes(ts)
+
 \* ======================================================================
 \* emission
 \* ======================================================================
@@ -694,6 +913,8 @@ Emit ==
                 x == CtxTree(c, PhraseOf(pre), d) IN
             \/ ~CtxApplies(c, pre, d)
             \/ PrintT(<<"CASE", ToJson(SemCase(Render(x, "min"), SpellStyle(sn), c, x, d))>>)
+    [] Mode = "pipe" ->
+         \A sn \in SpellNames : \A r \in Contexts : PrintT(<<"CASE", ToJson(PipeCase(pre, sn, r))>>)
     [] Mode = "walk" ->
          PrintT(<<"CASE", ToJson(TotCase(pre))>>)
     [] Mode = "deep" ->
